@@ -317,7 +317,43 @@ class _RenameLocals(ast.NodeTransformer):
         return node
 
 
+class _RenameAllLocals(ast.NodeTransformer):
+    """Rename every local variable that is *assigned* in a top-level function or method (parameters and names the
+    function only reads are left alone) to <name>_v, consistently through nested functions and lambdas."""
+
+    def _rename(self, node):
+        params = set()
+        for n in ast.walk(node):
+            if isinstance(n, (ast.FunctionDef, ast.Lambda)):
+                a = n.args
+                params |= {x.arg for x in a.posonlyargs + a.args + a.kwonlyargs}
+                if a.vararg:
+                    params.add(a.vararg.arg)
+                if a.kwarg:
+                    params.add(a.kwarg.arg)
+        assigned = set()
+        inner_defs = {n.name for n in ast.walk(node) if isinstance(n, ast.FunctionDef) and n is not node}
+        for n in ast.walk(node):
+            if isinstance(n, ast.Name) and isinstance(n.ctx, ast.Store):
+                assigned.add(n.id)
+            elif isinstance(n, (ast.Global, ast.Nonlocal)):
+                return node
+        todo = {v: v + '_v' for v in assigned - params - inner_defs if not v.startswith('__')}
+        for n in ast.walk(node):
+            if isinstance(n, ast.Name) and n.id in todo:
+                n.id = todo[n.id]
+        return node
+
+    def visit_FunctionDef(self, node):
+        return self._rename(node)
+
+    def visit_ClassDef(self, node):
+        node.body = [self._rename(s) if isinstance(s, ast.FunctionDef) else s for s in node.body]
+        return node
+
+
 BENIGN = {
+    'renamed-all-locals': lambda tree: ast.fix_missing_locations(_RenameAllLocals().visit(copy.deepcopy(tree))),
     'format-roundtrip': lambda tree: ast.parse(ast.unparse(tree)),
     'comparison-orientation': lambda tree: ast.fix_missing_locations(_FlipOrientation().visit(copy.deepcopy(tree))),
     'commuted-constants': lambda tree: ast.fix_missing_locations(_CommuteConst().visit(copy.deepcopy(tree))),
